@@ -166,7 +166,9 @@ pub fn project(rng: &mut Rng, cfg: &ProjCfg) -> Proj {
                 9 if !imports.is_empty() => rng.pick(&imports).clone(), // duplicate
                 10 => format!("{}.{}", rng.pick_str(PACKAGES), rng.pick_str(ITEM_NAMES)),
                 _ => {
-                    if rng.chance(1, 2) {
+                    if rng.chance(1, 3) {
+                        crate::vocab::dotted(rng).unwrap_or_else(|| rng.pick_str(PHANTOM_KEYS).to_string())
+                    } else if rng.chance(1, 2) {
                         rng.pick_str(PHANTOM_KEYS).to_string()
                     } else {
                         rng.pick_str(gen::REAL_WORLD_IMPORTS).to_string()
